@@ -536,5 +536,14 @@ def check(run, replay=None):
                        'every value of the high 8 bits (thorough: all k; quick: 600 sampled k) - the full 2^24 enumeration is replaced by this stride because the extracted model processes lists in O(n); the theorems '
                        'quantify over all 2^24 values.  Model and C++ (both scheduler builds) are compared on every driver frame, handler call and the internal state; the oracle is an independent reference machine '
                        '(claim windows, retry timers, FIFO, gate) with the answer layouts from the published PGN definitions.  non-trivial = case in which the node sent something or the handler was called')
-    for fs in ('w64', 'w32'):
+    for fs in (() if (replay and any(l.startswith('# family: conf-change-') for l in open(replay))) else ('w64', 'w32')):
         vlib.correspond(run, 'iso-' + fs, 'h_node', fs, 'NODE', cases, oracle, nontrivial, model_args=[fs])
+    # configuration information changed at run time (a Command group function replaces one installation description of a node whose
+    # application configured all three strings): the next answers to ISO requests for 126998 must carry the new description AND the
+    # untouched strings.  Cases and oracle of the C09 development, model with the library's group function handlers.
+    creplay = bool(replay) and any(l.startswith('# family: conf-change-') for l in open(replay))
+    if creplay or not replay:
+        import random, p_C09
+        ccases = cases if creplay else p_C09.conf_change_cases(random.Random(run.seed * 9176 + 88), run.tier != 'quick')
+        for fs in ('w64', 'w32'):
+            vlib.correspond(run, 'conf-change-' + fs, 'h_node', fs, 'NODEGF', ccases, p_C09.oracle, p_C09.nontrivial, known=p_C09.known, model_args=[fs])
